@@ -42,6 +42,7 @@ type Spec struct {
 	Models     map[string]string `json:"models"` // callee full name -> "pkgpath.Func"
 	Out        string            `json:"out"`
 	Trace      bool              `json:"trace"`
+	Tier       int               `json:"tier"`
 	Verbose    bool              `json:"verbose"`
 	StopOnViolation bool         `json:"stop_on_violation"`
 }
@@ -150,6 +151,7 @@ func run(spec *Spec) *Output {
 
 	P := sx.NewProgram(prog, types.SizesFor("gc", "amd64"))
 	P.Trace = spec.Trace
+	P.Tier = spec.Tier
 	for _, n := range spec.NoInitPkgs {
 		P.NoInitPkgs[n] = true
 	}
